@@ -29,16 +29,76 @@ type refAddr struct {
 
 func (a refAddr) String() string { return fmt.Sprintf("%s/%s:%d", a.Proto, a.IP, a.Port) }
 
-// refParse: protocol/port or protocol/host:port, protocol tcp|udp, port 0..65535 in
-// plain decimal. ok=false for everything else.
-func refParse(s string) (refAddr, bool) {
+// verdicts of the reference for one port string
+const (
+	vMalformed = iota // does not parse as protocol/port or protocol/host:port: must be rejected
+	vExact            // well-formed with no host or an IP-literal host: exactly this address
+	vSoft             // host is not an IP literal but a lenient / resolving parser could give it a meaning (host
+	// name, inet_aton-style numeric form, surrounding white space, non-ASCII name): the statement leaves the
+	// resolution to the environment, so the entry may be rejected or become ONE CONCRETE address with
+	// this protocol and port - never the wildcard address, which nobody configured
+	vZoned // bracketed IPv6 literal with a %zone: rejected, or exactly that literal's address
+	vSkip  // not classified by the statement: nothing is asserted
+)
+
+func isV6Literal(h string) bool { return strings.Contains(h, ":") && net.ParseIP(h) != nil }
+
+// classifyHost: the host part after removing one pair of brackets. Returns the verdict, the
+// canonical IP for literal / zoned hosts and a class name for labels and messages.
+func classifyHost(host string) (int, string, string) {
+	if host == "" {
+		return vExact, "", "none"
+	}
+	if ip := net.ParseIP(host); ip != nil {
+		return vExact, ip.String(), "literal"
+	}
+	if i := strings.IndexByte(host, '%'); i >= 0 {
+		if lit, zone := host[:i], host[i+1:]; zone != "" && isV6Literal(lit) {
+			if net.ParseIP(lit).IsUnspecified() {
+				return vSkip, "", "unspecified-zone" // like 0.0.0.0 / ::, left to the implementation
+			}
+			return vZoned, net.ParseIP(lit).String(), "v6-zone"
+		}
+		return vMalformed, "", "bad-zone" // IPv4 or name with a zone, empty zone
+	}
+	if strings.Contains(host, ":") {
+		return vMalformed, "", "bad-v6" // a colon cannot be part of a host name
+	}
+	numeric, name := true, true
+	for _, c := range host {
+		switch {
+		case c >= '0' && c <= '9' || c == '.':
+		case c >= 'a' && c <= 'z' || c >= 'A' && c <= 'Z' || c == '-' || c == '_':
+			numeric = false
+		case c <= ' ' || c >= 0x7f:
+			return vSoft, "", "odd-name" // white space a lenient parser might trim, control, non-ASCII (IDN)
+		default:
+			numeric, name = false, false
+		}
+	}
+	if strings.Trim(host, "0.xX") == "" {
+		return vSkip, "", "zero-number" // 0, 0.0, 0x0.0: the unspecified address for an inet_aton-style parser
+	}
+	switch {
+	case numeric:
+		return vSoft, "", "bad-v4" // 300.1.1.1, 1.2.3, 010.0.0.1, 1.2.3.4.5, 2130706433 ...
+	case name:
+		return vSoft, "", "name"
+	}
+	return vMalformed, "", "bad-host" // ASCII punctuation that neither a literal nor a name can contain
+}
+
+// refClassify: protocol/port or protocol/host:port, protocol tcp|udp, port 0..65535 in plain
+// decimal; see the verdict constants for the host part. class names the host class when the
+// rest of the entry is well-formed, "" otherwise.
+func refClassify(s string) (refAddr, int, string) {
 	i := strings.IndexByte(s, '/')
 	if i < 0 || strings.Count(s, "/") != 1 {
-		return refAddr{}, false
+		return refAddr{}, vMalformed, ""
 	}
 	proto, rest := s[:i], s[i+1:]
 	if proto != "tcp" && proto != "udp" {
-		return refAddr{}, false
+		return refAddr{}, vMalformed, ""
 	}
 	host, port := "", rest
 	if j := strings.LastIndexByte(rest, ':'); j >= 0 {
@@ -46,29 +106,32 @@ func refParse(s string) (refAddr, bool) {
 		if strings.HasPrefix(host, "[") && strings.HasSuffix(host, "]") {
 			host = host[1 : len(host)-1]
 		} else if strings.Contains(host, ":") {
-			return refAddr{}, false
+			return refAddr{}, vMalformed, ""
 		}
 	}
 	if port == "" {
-		return refAddr{}, false
+		return refAddr{}, vMalformed, ""
 	}
 	for _, c := range port {
 		if c < '0' || c > '9' {
-			return refAddr{}, false
+			return refAddr{}, vMalformed, ""
 		}
 	}
 	n, err := strconv.Atoi(port)
 	if err != nil || n > 65535 {
-		return refAddr{}, false
+		return refAddr{}, vMalformed, ""
 	}
-	if host != "" {
-		ip := net.ParseIP(host)
-		if ip == nil {
-			return refAddr{}, false
-		}
-		host = ip.String()
+	v, ip, class := classifyHost(host)
+	if v == vMalformed {
+		return refAddr{}, vMalformed, class
 	}
-	return refAddr{proto, host, n}, true
+	return refAddr{proto, ip, n}, v, class
+}
+
+// refParse: the entries the statement classifies as well-formed with a fixed meaning.
+func refParse(s string) (refAddr, bool) {
+	a, v, _ := refClassify(s)
+	return a, v == vExact
 }
 
 func describe(a net.Addr) (refAddr, bool) {
@@ -93,12 +156,37 @@ type parseCase struct {
 	S string `json:"s"`
 }
 
+func wildcard(ip string) bool {
+	return ip == "" || net.ParseIP(ip) == nil || net.ParseIP(ip).IsUnspecified()
+}
+
 func checkParse(s string) error {
-	want, ok := refParse(s)
+	want, v, class := refClassify(s)
 	addr, proto, port, err := server.ToAddr(s)
-	if !ok {
+	switch v {
+	case vSkip:
+		return nil
+	case vMalformed:
 		if err == nil && addr != nil {
 			return fmt.Errorf("ToAddr(%q) accepted a malformed entry: %v", s, addr)
+		}
+		return nil
+	case vSoft, vZoned:
+		if err != nil || addr == nil {
+			return nil // rejected: allowed
+		}
+		got, ok := describe(addr)
+		if !ok {
+			return fmt.Errorf("ToAddr(%q) = %v (%T)", s, addr, addr)
+		}
+		if wildcard(got.IP) {
+			return fmt.Errorf("ToAddr(%q) = %v: the host part (%s, not an IP literal) was dropped and the entry became the wildcard address nobody configured", s, got, class)
+		}
+		if got.Proto != want.Proto || got.Port != want.Port || proto != want.Proto || port != want.Port {
+			return fmt.Errorf("ToAddr(%q) = %v, %s/%d, want protocol/port %s/%d", s, got, proto, port, want.Proto, want.Port)
+		}
+		if v == vZoned && got.IP != want.IP {
+			return fmt.Errorf("ToAddr(%q) = %v, want address %s (or a rejection)", s, got, want.IP)
 		}
 		return nil
 	}
@@ -171,6 +259,171 @@ func TestToAddrExhaustive(t *testing.T) {
 	r.Exhaustive("all 65,536 port numbers for tcp and udp (plain and ':'-prefixed forms)")
 }
 
+// ---------------------------------------------------------------- host parts that are not IP literals
+
+var (
+	goodOctets = []int{0, 1, 7, 9, 10, 99, 100, 127, 192, 199, 200, 249, 250, 254, 255}
+	badOctets  = []string{"256", "257", "260", "299", "300", "999", "1000", "65536", "4294967296", "00", "01", "08", "010", "0377", "0x7f", "0x0", "", "-1", "+1", "1e1", "a", " 1"}
+	v6Bases    = []string{"::1", "fe80::1", "fe80::a:b", "2001:db8::5", "2001:db8:0:1:2:3:4:5", "::ffff:192.0.2.1", "ff02::1"}
+	zones      = []string{"lo", "eth0", "1", "0", "nosuchif9", "", "lo%lo", "a b"}
+	hostNames  = []string{"localhost", "LOCALHOST", "Localhost", "localhost.", "h.invalid", "a-b.invalid", "a_b.invalid", "-x.invalid", "x-.invalid", "invalid", "1.2.3.4.invalid", "0x7f.invalid", "xn--bcher-kva.invalid", "local host", " localhost", "localhost ", "\tlocalhost"}
+	punct      = []string{"!", ",", ";", "*", "?", "@", "#", "$", "&", "(", ")", "=", "~", "^", "|", "<", ">", "{", "}", "'", "`", "+", "%", "%lo", "\"", "\\", "]", "["}
+)
+
+func genV4(t *rapid.T) []string {
+	o := make([]string, 4)
+	o[0] = strconv.Itoa(rapid.IntRange(1, 223).Draw(t, "o0"))
+	for i := 1; i < 4; i++ {
+		if rapid.Bool().Draw(t, "edge") {
+			o[i] = strconv.Itoa(rapid.SampledFrom(goodOctets).Draw(t, "o"))
+		} else {
+			o[i] = strconv.Itoa(rapid.IntRange(0, 255).Draw(t, "o"))
+		}
+	}
+	return o
+}
+
+// genHost: the host part of an entry as written (brackets included). Derived from valid IPv4 /
+// IPv6 literals by the mutations that make a literal invalid (octet just outside 0..255, octet
+// count, leading zeros, radix prefixes, empty octets, 32-bit number, zone, group count / length,
+// double "::", stray characters, bracket mistakes) plus host names and unmutated controls.
+// dns=false keeps to names whose lookup never needs a name server (hosts file, .invalid).
+func genHost(t *rapid.T, dns bool) string {
+	switch rapid.IntRange(0, 13).Draw(t, "hostkind") {
+	case 0: // control: valid IPv4
+		return strings.Join(genV4(t), ".")
+	case 1: // one octet replaced
+		o := genV4(t)
+		o[rapid.IntRange(0, 3).Draw(t, "pos")] = rapid.SampledFrom(badOctets).Draw(t, "bad")
+		return strings.Join(o, ".")
+	case 2: // too few octets
+		return strings.Join(genV4(t)[:rapid.IntRange(1, 3).Draw(t, "n")], ".")
+	case 3: // too many octets
+		o := genV4(t)
+		for i := rapid.IntRange(1, 2).Draw(t, "n"); i > 0; i-- {
+			o = append(o, strconv.Itoa(rapid.SampledFrom(goodOctets).Draw(t, "o")))
+		}
+		return strings.Join(o, ".")
+	case 4: // leading / trailing / doubled dot
+		h := strings.Join(genV4(t), ".")
+		switch rapid.IntRange(0, 2).Draw(t, "dot") {
+		case 0:
+			return h + "."
+		case 1:
+			return "." + h
+		}
+		return strings.Replace(h, ".", "..", 1)
+	case 5: // the address as one number (inet_aton style), around 2^32
+		switch rapid.IntRange(0, 2).Draw(t, "num") {
+		case 0:
+			return strconv.FormatUint(uint64(rapid.Uint32Min(1<<24).Draw(t, "u32")), 10)
+		case 1:
+			return rapid.SampledFrom([]string{"4294967295", "4294967296", "2130706433", "0x7f000001", "017700000001"}).Draw(t, "numlit")
+		}
+		o := genV4(t)
+		return o[0] + "." + strconv.Itoa(rapid.IntRange(0, 1<<24-1).Draw(t, "tail"))
+	case 6: // stray character in or around a literal or name
+		h := strings.Join(genV4(t), ".")
+		if rapid.Bool().Draw(t, "onname") {
+			h = "localhost"
+		}
+		c := rapid.SampledFrom(append([]string{"x", "-", "_", " "}, punct...)).Draw(t, "char")
+		i := rapid.SampledFrom([]int{0, len(h) / 2, len(h)}).Draw(t, "at")
+		return h[:i] + c + h[i:]
+	case 7: // control: valid bracketed IPv6
+		return "[" + rapid.SampledFrom(v6Bases).Draw(t, "v6") + "]"
+	case 8: // zone
+		h := rapid.SampledFrom(v6Bases).Draw(t, "v6") + "%" + rapid.SampledFrom(zones).Draw(t, "zone")
+		if rapid.IntRange(0, 5).Draw(t, "nobracket") == 0 {
+			return h
+		}
+		return "[" + h + "]"
+	case 9: // invalid IPv6 in brackets
+		b := rapid.SampledFrom(v6Bases).Draw(t, "v6")
+		switch rapid.IntRange(0, 6).Draw(t, "v6bad") {
+		case 0:
+			b += "::1"
+		case 1:
+			b = strings.Replace(b, "1", "12345", 1)
+		case 2:
+			b = "1:2:3:4:5:6:7:8:" + strconv.Itoa(rapid.IntRange(0, 9).Draw(t, "g9"))
+		case 3:
+			b += "g"
+		case 4:
+			b += ":"
+		case 5:
+			b = ":" + strings.TrimPrefix(b, ":") + ":"
+		default:
+			b = "1:2:3:4:5:6:7"
+		}
+		return "[" + b + "]"
+	case 10: // bracket mistakes
+		b := rapid.SampledFrom(append([]string{"192.0.2.1x", "localhost"}, v6Bases...)).Draw(t, "inner")
+		return rapid.SampledFrom([]string{"[" + b, b + "]", "[[" + b + "]]", "[" + b + "]x", "x[" + b + "]", b}).Draw(t, "brk")
+	case 11: // a short name that is not in the hosts file
+		if dns {
+			return rapid.StringMatching(`[a-z][a-z0-9-]{0,8}(\.[a-z]{2,5})?`).Draw(t, "name")
+		}
+		return rapid.StringMatching(`[a-z][a-z0-9-]{0,8}\.invalid`).Draw(t, "name")
+	case 12:
+		return strings.Repeat("a", rapid.SampledFrom([]int{1, 62, 63, 64, 65}).Draw(t, "label")) + ".invalid"
+	}
+	h := rapid.SampledFrom(hostNames).Draw(t, "name")
+	if rapid.IntRange(0, 7).Draw(t, "brackets") == 0 {
+		h = "[" + h + "]"
+	}
+	return h
+}
+
+func unclassifiedHost(s string) bool {
+	// 0.0.0.0 / :: hosts and non-canonical decimal ports are left to the implementation (prop.json level_note)
+	a, v, _ := refClassify(s)
+	return v == vSkip || v == vExact && a.IP != "" && net.ParseIP(a.IP).IsUnspecified()
+}
+
+// genHostEntry: protocol/host:port with a generated host; ports (as written) from the given set.
+func genHostEntry(t *rapid.T, ports []string, dns bool) string {
+	proto := "tcp"
+	if rapid.Bool().Draw(t, "udp") {
+		proto = "udp"
+	}
+	return proto + "/" + genHost(t, dns) + ":" + rapid.SampledFrom(ports).Draw(t, "portnum")
+}
+
+func TestToAddrHosts(t *testing.T) {
+	r := vlib.Open(prop)
+	var pc parseCase
+	if vlib.ReplayCase("TestToAddrHosts", &pc) {
+		if err := checkParse(pc.S); err != nil {
+			r.Violation(t, "TestToAddrHosts", pc, err.Error())
+		}
+		return
+	}
+	r.Rule("ToAddr on protocol/host:port with generated host parts: valid IPv4/IPv6 literals and their invalid neighbours (octet outside 0..255, wrong octet/group count, leading zeros, radix prefixes, empty octets, 32-bit number form, zones, double '::', stray characters, bracket mistakes) and host names; ports at the range boundaries; oracle = reference classifier: literal -> exactly that address, not a host at all -> rejected, name / lenient numeric form -> rejected or ONE concrete address with that protocol and port, never the wildcard; non-trivial = host part present and not an IP literal")
+	ports := []string{"0", "1", "53", "80", "8023", "65534", "65535", "0", "1", "53", "80", "8023", "65534", "65535", "80", "65535", "65536", "70000", "-1", "", "x"}
+	r.Rapid(t, "TestToAddrHosts", r.Pick(8000, 80000), func(rt *rapid.T) {
+		s := genHostEntry(rt, ports, true)
+		if rapid.IntRange(0, 19).Draw(rt, "badproto") == 0 {
+			s = rapid.SampledFrom([]string{"icmp", "TCP", "tcp4", "", "udp6"}).Draw(rt, "proto") + s[3:]
+		}
+		if unclassifiedHost(s) {
+			rt.Skip("unspecified address as host")
+		}
+		_, _, class := refClassify(s)
+		label, fp := "hosts/malformed-elsewhere", ""
+		if class != "" {
+			label = "hosts/" + class
+			if class != "literal" && class != "none" {
+				fp = s
+			}
+		}
+		r.Case(label, fp, func() interface{} { return parseCase{s} })
+		if err := checkParse(s); err != nil {
+			r.Fail(rt, "TestToAddrHosts", parseCase{s}, "%v", err)
+		}
+	})
+}
+
 // ---------------------------------------------------------------- port table construction through Run
 
 type portEntry struct {
@@ -223,8 +476,32 @@ func compatible(a, b refAddr) bool {
 	return a.Proto == b.Proto && a.Port == b.Port && (a.IP == "" || b.IP == "" || a.IP == b.IP)
 }
 
+// observe: for entries whose host is not an IP literal but may have a meaning (name, zone) the
+// statement leaves the resolution to the environment: take what ToAddr makes of them - after
+// checkParse confirmed it is a rejection or one concrete address - and model everything else
+// (order, first-wins, services) independently on top of it.
+func observe(c tableCase) (map[string]refAddr, error) {
+	res := map[string]refAddr{}
+	for _, e := range c.Entries {
+		for _, s := range append(append([]string{}, e.Ports...), e.Port) {
+			if _, v, _ := refClassify(s); v != vSoft && v != vZoned {
+				continue
+			}
+			if err := checkParse(s); err != nil {
+				return nil, err
+			}
+			if addr, _, _, err := server.ToAddr(s); err == nil && addr != nil {
+				if d, ok := describe(addr); ok {
+					res[s] = d
+				}
+			}
+		}
+	}
+	return res, nil
+}
+
 // model builds the expected AddAddress sequence.
-func model(c tableCase) []listened {
+func model(c tableCase, resolved map[string]refAddr) []listened {
 	defined := map[string]bool{}
 	for _, s := range c.Defined {
 		defined[s] = true
@@ -239,7 +516,9 @@ func model(c tableCase) []listened {
 		for _, s := range strs {
 			a, ok := refParse(s)
 			if !ok {
-				continue
+				if a, ok = resolved[s]; !ok {
+					continue
+				}
 			}
 			var svcs []string
 			for _, n := range e.Services {
@@ -277,6 +556,10 @@ func toNet(a refAddr, fallbackIP string) net.Addr {
 }
 
 func checkTable(c tableCase) error {
+	resolved, err := observe(c)
+	if err != nil {
+		return err
+	}
 	id := lab.NextID()
 	srv, err := lab.Start(id, c.toml(id), false)
 	if err != nil {
@@ -288,7 +571,7 @@ func checkTable(c tableCase) error {
 		ids = append(ids, id+"-"+s)
 	}
 	defer lab.Forget(ids...)
-	want := model(c)
+	want := model(c, resolved)
 	var got []refAddr
 	for _, a := range srv.L.Addresses() {
 		d, ok := describe(a)
@@ -402,6 +685,18 @@ func checkTable(c tableCase) error {
 	return nil
 }
 
+var tablePorts = []string{"80", "80", "81", "53", "65535", "0", "65536"}
+
+func genPortString(t *rapid.T) string {
+	if rapid.IntRange(0, 4).Draw(t, "hostgen") == 0 {
+		s := genHostEntry(t, tablePorts, false)
+		if !unclassifiedHost(s) {
+			return s
+		}
+	}
+	return rapid.SampledFrom(portStrings).Draw(t, "portstr")
+}
+
 func genTable(t *rapid.T) tableCase {
 	c := tableCase{Defined: rapid.SliceOfNDistinct(rapid.SampledFrom([]string{"s1", "s2", "s3"}), 0, 3, rapid.ID[string]).Draw(t, "defined")}
 	n := rapid.IntRange(1, 4).Draw(t, "entries")
@@ -410,15 +705,15 @@ func genTable(t *rapid.T) tableCase {
 		var e portEntry
 		switch rapid.IntRange(0, 3).Draw(t, "form") {
 		case 0:
-			e.Port = rapid.SampledFrom(portStrings).Draw(t, "port")
+			e.Port = genPortString(t)
 		case 1:
-			e.Ports = rapid.SliceOfN(rapid.SampledFrom(portStrings), 0, 3).Draw(t, "ports")
+			e.Ports = rapid.SliceOfN(rapid.Custom(genPortString), 0, 3).Draw(t, "ports")
 			if e.Ports == nil {
 				e.Ports = []string{}
 			}
 		case 2:
-			e.Port = rapid.SampledFrom(portStrings).Draw(t, "port")
-			e.Ports = rapid.SliceOfN(rapid.SampledFrom(portStrings), 1, 2).Draw(t, "ports")
+			e.Port = genPortString(t)
+			e.Ports = rapid.SliceOfN(rapid.Custom(genPortString), 1, 2).Draw(t, "ports")
 		default:
 		}
 		e.Services = rapid.SliceOfN(rapid.SampledFrom(names), 0, 3).Draw(t, "services")
@@ -451,6 +746,9 @@ func nontrivial(c tableCase) bool {
 		}
 		strs := append(append([]string{}, e.Ports...), e.Port)
 		for _, s := range strs {
+			if _, _, class := refClassify(s); class != "" && class != "none" && class != "literal" && len(e.Services) > 0 {
+				return true
+			}
 			if a, ok := refParse(s); ok {
 				for _, p := range seen {
 					if compatible(p, a) {
@@ -473,7 +771,7 @@ func TestPortTable(t *testing.T) {
 		}
 		return
 	}
-	r.Rule("configurations of 1..4 port entries using port and/or ports with well-formed and malformed strings, service lists naming defined, undefined and duplicate stub services; real Run() with a recording listener; oracle = reference table builder (set and order of AddAddress calls) + probe connections (tcp and udp) to listened and unlistened addresses; non-trivial = colliding entries or an entry mixing valid and unknown services")
+	r.Rule("configurations of 1..4 port entries using port and/or ports with well-formed and malformed strings, service lists naming defined, undefined and duplicate stub services; real Run() with a recording listener; oracle = reference table builder (set and order of AddAddress calls) + probe connections (tcp and udp) to listened and unlistened addresses; one port string in five has a generated host part (invalid neighbours of IP literals, zones, host names - see TestToAddrHosts) on the ports the other entries use, so that a mis-parsed entry competes for the first-wins slot; non-trivial = colliding entries, an entry mixing valid and unknown services, or an entry with services whose host part is not an IP literal")
 	r.Rapid(t, "TestPortTable", r.Pick(6000, 60000), func(rt *rapid.T) {
 		c := genTable(rt)
 		fp := ""
